@@ -133,7 +133,8 @@ Context `{D : Domain}.
 Variable B : Type.
 Variable dt : term -> B -> Prop.
 Variable wf : term -> Prop.
-Hypothesis S : DomainSpec B dt wf.
+Variable pv : var -> Prop.
+Hypothesis S : DomainSpec B dt wf pv.
 
 (* ---------- the invariant is kept by the list layer ---------- *)
 Lemma wfs_nil : wfs wf [].
@@ -158,12 +159,51 @@ Proof.
   unfold wfs. rewrite !Forall_forall. intros Hx t Ht. apply Hx. eapply twv_incl. exact Ht.
 Qed.
 
-Lemma wfs_rename x s u : wfs wf x -> wfs wf (TermList_rename_variable x s u).
+Lemma wfs_rename x s u : pv u -> wfs wf x -> wfs wf (TermList_rename_variable x s u).
 Proof.
-  unfold TermList_rename_variable. rewrite TermList_init_Some. unfold wfs.
+  intros Hu. unfold TermList_rename_variable. rewrite TermList_init_Some. unfold wfs.
   rewrite !Forall_forall. intros Hx t Ht. apply in_map_iff in Ht. destruct Ht as (t0 & <- & Ht0).
-  apply (rename_wf B dt wf S). apply Hx. exact Ht0.
+  apply (rename_wf B dt wf pv S); [exact Hu|]. apply Hx. exact Ht0.
 Qed.
+
+(* ---------- lists of variables handed to the elimination primitives ---------- *)
+Lemma pvs_filter (f : var -> bool) l : Forall pv l -> Forall pv (filter f l).
+Proof. rewrite !Forall_forall. intros Hl x Hx. apply filter_In in Hx. apply Hl. tauto. Qed.
+
+Lemma pvs_union l1 l2 : Forall pv l1 -> Forall pv l2 -> Forall pv (list_union l1 l2).
+Proof. intros H1 H2. unfold list_union. apply Forall_app. split; [exact H1|apply pvs_filter; exact H2]. Qed.
+
+Lemma pvs_diff l1 l2 : Forall pv l1 -> Forall pv (list_diff l1 l2).
+Proof. apply pvs_filter. Qed.
+
+Lemma pvs_inter l1 l2 : Forall pv l1 -> Forall pv (list_intersection l1 l2).
+Proof. apply pvs_filter. Qed.
+
+(* the algebra's own test "k has nothing outside U" *)
+Lemma pvs_subset k U : nonempty (list_diff k U) = false -> Forall pv U -> Forall pv k.
+Proof.
+  intros Hk HU. apply nonempty_false in Hk. rewrite Forall_forall in *. intros x Hx.
+  destruct (in_dec string_dec x U) as [Hin|Hout]; [apply HU; exact Hin|].
+  assert (Hd : In x (list_diff k U)) by (apply in_list_diff; split; assumption).
+  rewrite Hk in Hd. destruct Hd.
+Qed.
+
+Lemma if_nonempty_id {A} (v : list A) : (if nonempty v then v else []) = v.
+Proof. destruct v; reflexivity. Qed.
+
+Ltac nodup_solve :=
+  solve [ repeat first [ assumption | apply NoDup_nil | apply NoDup_list_union
+                       | apply NoDup_list_diff | apply NoDup_list_intersection ] ].
+Ltac pv_solve :=
+  solve [ repeat first [ assumption | apply Forall_nil | apply pvs_union | apply pvs_diff
+                       | apply pvs_inter
+                       | (eapply pvs_subset; [eassumption|]) ] ].
+Ltac vs_solve := split; [nodup_solve | pv_solve].
+
+Ltac open_iface :=
+  repeat match goal with
+  | Hi : iface_ok pv _ |- _ => destruct Hi as (? & ? & ? & ?)
+  end.
 
 (* side conditions [wfs wf _]: from the context, through the list operations *)
 Ltac wfs_solve :=
@@ -188,7 +228,7 @@ Proof.
     unfold wfs in *. rewrite Forall_forall in *. intros t Ht.
     destruct (py_in t x) eqn:E.
     + unfold py_in in E. apply existsb_exists in E. destruct E as (u & Hu & Eu). simpl in Eu.
-      apply (eqb_sound B dt wf S t u (Wy t Ht) (Wx u Hu) Eu b). apply Hx. exact Hu.
+      apply (eqb_sound B dt wf pv S t u (Wy t Ht) (Wx u Hu) Eu b). apply Hx. exact Hu.
     + apply Hy. apply filter_In. rewrite E. split; [exact Ht|reflexivity].
   - intros [Hx Hy]. split; [exact Hx|]. apply den_filter. exact Hy.
 Qed.
@@ -237,7 +277,7 @@ Proof.
   - match goal with
     | Hp : p_simplify _ ?ctx = inl _ |- _ =>
         assert (Wctx : wfs wf (opt_list ctx)) by wfs_solve;
-        destruct (simpl_ok B dt wf S _ _ _ Wg Wctx Hp) as [Wr Hq]; simpl opt_list in Hq
+        destruct (simpl_ok B dt wf pv S _ _ _ Wg Wctx Hp) as [Wr Hq]; simpl opt_list in Hq
     end.
     unfold wfc; simpl.
     split; [split; assumption|]. do 3 (split; [reflexivity|]). exact Hq.
@@ -250,33 +290,39 @@ Qed.
    semantic halves stay quantified over the behaviour *)
 Ltac saturate :=
   repeat match goal with
-  | Hp : p_elim_refine ?s ?ctx _ _ _ = inl (_, _) |- _ =>
+  | Hp : p_elim_refine ?s ?ctx ?vs _ _ = inl (_, _) |- _ =>
       let W1 := fresh "W" in
       let W2 := fresh "W" in
+      let W3 := fresh "W" in
       let Wr := fresh "Wr" in
       let Hq := fresh "Hq" in
       assert (W1 : wfs wf s) by wfs_solve; assert (W2 : wfs wf ctx) by wfs_solve;
-      destruct (refine_ok B dt wf S _ _ _ _ _ _ _ W1 W2 Hp) as [Wr Hq]; clear Hp W1 W2
-  | Hp : p_elim_relax ?s ?ctx _ _ _ = inl (_, _) |- _ =>
+      assert (W3 : vs_ok pv vs) by vs_solve;
+      destruct (refine_ok B dt wf pv S _ _ _ _ _ _ _ W1 W2 W3 Hp) as [Wr Hq]; clear Hp W1 W2 W3
+  | Hp : p_elim_relax ?s ?ctx ?vs _ _ = inl (_, _) |- _ =>
       let W1 := fresh "W" in
       let W2 := fresh "W" in
+      let W3 := fresh "W" in
       let Wr := fresh "Wr" in
       let Hq := fresh "Hq" in
       assert (W1 : wfs wf s) by wfs_solve; assert (W2 : wfs wf ctx) by wfs_solve;
-      destruct (relax_ok B dt wf S _ _ _ _ _ _ _ W1 W2 Hp) as [Wr Hq]; clear Hp W1 W2
+      assert (W3 : vs_ok pv vs) by vs_solve;
+      destruct (relax_ok B dt wf pv S _ _ _ _ _ _ _ W1 W2 W3 Hp) as [Wr Hq]; clear Hp W1 W2 W3
   | Hp : p_simplify ?s ?ctx = inl _ |- _ =>
       let W1 := fresh "W" in
       let W2 := fresh "W" in
       let Wr := fresh "Wr" in
       let Hq := fresh "Hq" in
       assert (W1 : wfs wf s) by wfs_solve; assert (W2 : wfs wf (opt_list ctx)) by wfs_solve;
-      destruct (simpl_ok B dt wf S _ _ _ W1 W2 Hp) as [Wr Hq]; simpl opt_list in Hq; clear Hp W1 W2
+      destruct (simpl_ok B dt wf pv S _ _ _ W1 W2 Hp) as [Wr Hq]; simpl opt_list in Hq; clear Hp W1 W2
   | Hp : p_refines ?x ?y = inl true |- _ =>
       let W1 := fresh "W" in
       let W2 := fresh "W" in
       let Hq := fresh "Hq" in
       assert (W1 : wfs wf x) by wfs_solve; assert (W2 : wfs wf y) by wfs_solve;
-      pose proof (refines_ok B dt wf S _ _ W1 W2 Hp) as Hq; clear Hp W1 W2
+      match goal with
+      | R : RefinesSpec B dt wf |- _ => pose proof (R _ _ W1 W2 Hp) as Hq
+      end; clear Hp W1 W2
   | Hp : IoContract_init ?a ?g _ _ _ = inl _ |- _ =>
       let W1 := fresh "W" in
       let W2 := fresh "W" in
@@ -331,46 +377,94 @@ Ltac den_finish b :=
   tauto.
 
 (* ---------- 2. composition ---------- *)
+(* The lists handed to the elimination primitives are built from the interface
+   lists and vars_to_keep; vars_to_keep is appended to the outputs before the
+   eliminations, so it must be duplicate-free; that its names are admissible
+   follows from the algebra's own test that they are outputs of c1 or c2. *)
 Theorem compose_sound : forall c1 c2 keep sp od c st, wfc wf c1 -> wfc wf c2 ->
+  iface_ok pv c1 -> iface_ok pv c2 -> NoDup (opt_list keep) ->
   IoContract_compose_tactics c1 c2 keep sp od = inl (c, st) ->
   wfc wf c /\ compose_obligation B dt c1 c2 c.
 Proof.
-  intros c1 c2 keep sp od c st W1 W2 Hc. open_wfc.
-  unfold IoContract_compose_tactics in Hc. open_in Hc.
+  intros c1 c2 keep sp od c st W1 W2 I1 I2 Nk Hc. open_wfc. open_iface.
+  destruct keep as [k|]; simpl opt_list in Nk;
+  unfold IoContract_compose_tactics in Hc; open_in Hc;
   repeat inl_step; tl_simpl; saturate;
     (split; [assumption|]); intros b; unfold honours; at_behaviour b; den_finish b.
 Qed.
 
 Corollary compose_sound_simple : forall c1 c2 keep sp c, wfc wf c1 -> wfc wf c2 ->
+  iface_ok pv c1 -> iface_ok pv c2 -> NoDup (opt_list keep) ->
   IoContract_compose c1 c2 keep sp = inl c ->
   wfc wf c /\ compose_obligation B dt c1 c2 c.
 Proof.
-  intros c1 c2 keep sp c W1 W2 Hc. unfold IoContract_compose in Hc. open_in Hc.
+  intros c1 c2 keep sp c W1 W2 I1 I2 Nk Hc. unfold IoContract_compose in Hc. open_in Hc.
   repeat inl_step.
   match goal with
-  | Hp : IoContract_compose_tactics _ _ _ _ _ = inl _ |- _ => exact (compose_sound _ _ _ _ _ _ _ W1 W2 Hp)
+  | Hp : IoContract_compose_tactics _ _ _ _ _ = inl _ |- _ =>
+      exact (compose_sound _ _ _ _ _ _ _ W1 W2 I1 I2 Nk Hp)
   end.
 Qed.
 
 (* ---------- 3. quotient ---------- *)
-Theorem quotient_sound : forall c c1 add sp od q st, wfc wf c -> wfc wf c1 ->
+(* Pointwise form.  The quotient asks p_refines once (do the dividend's
+   assumptions refine the divisor's?); the conclusion at behaviour b only needs
+   that this one answer, if it was `true`, is right at b.  No hypothesis on
+   additional_inputs is needed: they are only removed from the eliminated lists. *)
+Theorem quotient_sound_pointwise : forall c c1 add sp od q st, wfc wf c -> wfc wf c1 ->
+  iface_ok pv c -> iface_ok pv c1 ->
+  IoContract_quotient_tactics c c1 add sp od = inl (q, st) ->
+  wfc wf q /\
+  forall b, (p_refines (c_a c) (c_a c1) = inl true -> den B dt (c_a c) b -> den B dt (c_a c1) b) ->
+            den B dt (c_a c) b -> honours B dt c1 b -> honours B dt q b ->
+            den B dt (c_a c1) b /\ den B dt (c_a q) b /\ den B dt (c_g c) b.
+Proof.
+  intros c c1 add sp od q st W W1 I I1 Hc. open_wfc. open_iface.
+  destruct add as [k|];
+  unfold IoContract_quotient_tactics in Hc; open_in Hc; rewrite ?if_nonempty_id in Hc;
+  repeat inl_step; tl_simpl; saturate;
+    (split; [assumption|]); intros b Hex;
+    try match goal with
+        | Hp : p_refines _ _ = inl true |- _ => specialize (Hex Hp)
+        end;
+    unfold honours; at_behaviour b; den_finish b.
+Qed.
+
+Theorem quotient_sound : RefinesSpec B dt wf ->
+  forall c c1 add sp od q st, wfc wf c -> wfc wf c1 ->
+  iface_ok pv c -> iface_ok pv c1 ->
   IoContract_quotient_tactics c c1 add sp od = inl (q, st) ->
   wfc wf q /\ quotient_obligation B dt c c1 q.
 Proof.
-  intros c c1 add sp od q st W W1 Hc. open_wfc.
-  unfold IoContract_quotient_tactics in Hc. open_in Hc.
-  repeat inl_step; tl_simpl; saturate;
-    (split; [assumption|]); intros b; unfold honours; at_behaviour b; den_finish b.
+  intros R c c1 add sp od q st W W1 I I1 Hc.
+  destruct (quotient_sound_pointwise _ _ _ _ _ _ _ W W1 I I1 Hc) as [Wq Hpt].
+  split; [exact Wq|]. intros b. apply Hpt. intros Hp.
+  destruct W as [Wa _]. destruct W1 as [Wa1 _]. exact (R _ _ Wa Wa1 Hp b).
 Qed.
 
-Corollary quotient_sound_simple : forall c c1 add sp q, wfc wf c -> wfc wf c1 ->
+(* when the test did not answer `true`, nothing is asked of p_refines *)
+Corollary quotient_sound_refines_false : forall c c1 add sp od q st, wfc wf c -> wfc wf c1 ->
+  iface_ok pv c -> iface_ok pv c1 ->
+  p_refines (c_a c) (c_a c1) <> inl true ->
+  IoContract_quotient_tactics c c1 add sp od = inl (q, st) ->
+  wfc wf q /\ quotient_obligation B dt c c1 q.
+Proof.
+  intros c c1 add sp od q st W W1 I I1 Hne Hc.
+  destruct (quotient_sound_pointwise _ _ _ _ _ _ _ W W1 I I1 Hc) as [Wq Hpt].
+  split; [exact Wq|]. intros b. apply Hpt. intros Hp. exfalso. exact (Hne Hp).
+Qed.
+
+Corollary quotient_sound_simple : RefinesSpec B dt wf ->
+  forall c c1 add sp q, wfc wf c -> wfc wf c1 ->
+  iface_ok pv c -> iface_ok pv c1 ->
   IoContract_quotient c c1 add sp = inl q ->
   wfc wf q /\ quotient_obligation B dt c c1 q.
 Proof.
-  intros c c1 add sp q W W1 Hc. unfold IoContract_quotient in Hc. open_in Hc.
+  intros R c c1 add sp q W W1 I I1 Hc. unfold IoContract_quotient in Hc. open_in Hc.
   repeat inl_step.
   match goal with
-  | Hp : IoContract_quotient_tactics _ _ _ _ _ = inl _ |- _ => exact (quotient_sound _ _ _ _ _ _ _ W W1 Hp)
+  | Hp : IoContract_quotient_tactics _ _ _ _ _ = inl _ |- _ =>
+      exact (quotient_sound R _ _ _ _ _ _ _ W W1 I I1 Hp)
   end.
 Qed.
 
@@ -386,12 +480,13 @@ Proof.
 Qed.
 
 (* ---------- 5. refinement ---------- *)
-Theorem refines_sound : forall c1 c2, wfc wf c1 -> wfc wf c2 ->
+Theorem refines_sound : RefinesSpec B dt wf ->
+  forall c1 c2, wfc wf c1 -> wfc wf c2 ->
   IoContract_refines c1 c2 = inl true ->
   (forall b, den B dt (c_a c2) b -> den B dt (c_a c1) b) /\
   (forall b, den B dt (c_a c2) b -> den B dt (c_g c1) b -> den B dt (c_g c2) b).
 Proof.
-  intros c1 c2 W1 W2 Hc. open_wfc. unfold IoContract_refines in Hc. open_in Hc.
+  intros R c1 c2 W1 W2 Hc. open_wfc. unfold IoContract_refines in Hc. open_in Hc.
   repeat inl_step.
   match goal with
   | Hb : (?x && ?y)%bool = true |- _ =>
@@ -402,27 +497,31 @@ Proof.
 Qed.
 
 (* ---------- 6. contains_environment / contains_implementation ---------- *)
-Theorem contains_environment_sound : forall c comp, wfc wf c -> wfs wf comp ->
+(* contains_environment is a bare p_refines call: its proof uses RefinesSpec only, so
+   after the section it does not take DomainSpec (nor pv) at all *)
+Theorem contains_environment_sound : RefinesSpec B dt wf ->
+  forall c comp, wfc wf c -> wfs wf comp ->
   IoContract_contains_environment c comp = inl true ->
   forall b, den B dt comp b -> den B dt (c_a c) b.
 Proof.
-  intros c comp W Wc Hc b. open_wfc. unfold IoContract_contains_environment in Hc. open_in Hc.
+  intros R c comp W Wc Hc b. open_wfc. unfold IoContract_contains_environment in Hc. open_in Hc.
   repeat inl_step; tl_simpl; saturate; at_behaviour b; den_finish b.
 Qed.
 
-Theorem contains_implementation_sound : forall c comp, wfc wf c -> wfs wf comp ->
+Theorem contains_implementation_sound : RefinesSpec B dt wf ->
+  forall c comp, wfc wf c -> wfs wf comp ->
   IoContract_contains_implementation c comp = inl true ->
   forall b, den B dt comp b -> den B dt (c_a c) b -> den B dt (c_g c) b.
 Proof.
-  intros c comp W Wc Hc b. open_wfc. unfold IoContract_contains_implementation in Hc. open_in Hc.
+  intros R c comp W Wc Hc b. open_wfc. unfold IoContract_contains_implementation in Hc. open_in Hc.
   repeat inl_step; tl_simpl; saturate; at_behaviour b; den_finish b.
 Qed.
 
 (* ---------- the remaining constructors keep the invariant ---------- *)
-Theorem rename_wfc : forall c s u c', wfc wf c ->
+Theorem rename_wfc : forall c s u c', pv u -> wfc wf c ->
   IoContract_rename_variable c s u = inl c' -> wfc wf c'.
 Proof.
-  intros c s u c' W Hc. open_wfc. unfold IoContract_rename_variable in Hc. open_in Hc.
+  intros c s u c' Hu W Hc. open_wfc. unfold IoContract_rename_variable in Hc. open_in Hc.
   repeat inl_step; tl_simpl; saturate; assumption.
 Qed.
 
@@ -605,29 +704,42 @@ Proof. unfold wfs. apply Forall_forall. intros t _. exact I. Qed.
 Lemma atom_wfc (c : contract) : wfc atom_wf c.
 Proof. split; apply atom_wfs. Qed.
 
-Lemma ToySpec : DomainSpec beh atom_dt atom_wf.
+(* ... and every variable name is admissible *)
+Definition atom_pv (v : var) : Prop := True.
+Lemma atom_iface (c : contract) :
+  NoDup (c_inputvars c) -> NoDup (c_outputvars c) -> iface_ok atom_pv c.
+Proof.
+  intros Hi Ho. repeat split; try assumption; apply Forall_forall; intros x _; exact I.
+Qed.
+
+Lemma ToySpec : DomainSpec beh atom_dt atom_wf atom_pv.
 Proof.
   constructor.
   - intros t1 t2 _ _. apply atom_eqb_sound.
-  - intros s ctx vs sp od r st _ _ Hr. split; [apply atom_wfs|]. intros b Hctx Hden.
+  - intros s ctx vs sp od r st _ _ _ Hr. split; [apply atom_wfs|]. intros b Hctx Hden.
     simpl in Hr. inversion Hr; subst; clear Hr.
     unfold den in *. rewrite Forall_forall in *. intros t Ht.
     destruct (existsb (atom_eqb t) ctx) eqn:E.
     + apply existsb_exists in E. destruct E as (u & Hu & Eu).
       apply (atom_eqb_sound _ _ Eu b). apply Hctx. exact Hu.
     + apply Hden. apply filter_In. rewrite E. split; [exact Ht|reflexivity].
-  - intros s ctx vs sp od r st _ _ Hr. split; [apply atom_wfs|]. intros b Hctx Hden.
+  - intros s ctx vs sp od r st _ _ _ Hr. split; [apply atom_wfs|]. intros b Hctx Hden.
     simpl in Hr. inversion Hr; subst; clear Hr.
     unfold den in *. rewrite Forall_forall in *. intros t Ht.
     apply filter_In in Ht. apply Hden. tauto.
   - intros s ctx r _ _ Hr. split; [apply atom_wfs|]. intros b Hctx.
     simpl in Hr. inversion Hr; subst. tauto.
-  - intros x y _ _ Hr b Hx. simpl in Hr. inversion Hr as [Hf]; clear Hr.
-    unfold den in *. rewrite Forall_forall in *. intros t Ht.
-    rewrite forallb_forall in Hf. specialize (Hf t Ht).
-    apply existsb_exists in Hf. destruct Hf as (u & Hu & Eu).
-    apply (atom_eqb_sound _ _ Eu b). apply Hx. exact Hu.
-  - intros t s u _. exact I.
+  - intros t s u _ _. exact I.
+Qed.
+
+(* the toy refinement test (syntactic inclusion) is sound *)
+Lemma ToyRefines : RefinesSpec beh atom_dt atom_wf.
+Proof.
+  intros x y _ _ Hr b Hx. simpl in Hr. inversion Hr as [Hf]; clear Hr.
+  unfold den in *. rewrite Forall_forall in *. intros t Ht.
+  rewrite forallb_forall in Hf. specialize (Hf t Ht).
+  apply existsb_exists in Hf. destruct Hf as (u & Hu & Eu).
+  apply (atom_eqb_sound _ _ Eu b). apply Hx. exact Hu.
 Qed.
 
 (* c1 : input x, output y, assumes x = 0, guarantees y = 1
@@ -638,6 +750,12 @@ Definition c2 : contract :=
   {| c_a := [Atom "y" 1]; c_g := [Atom "z" 2]; c_inputvars := ["y"]; c_outputvars := ["z"] |}.
 Definition c12 : contract :=
   {| c_a := [Atom "x" 0]; c_g := [Atom "z" 2]; c_inputvars := ["x"]; c_outputvars := ["z"] |}.
+
+Lemma NoDup1 (v : var) : NoDup [v].
+Proof. constructor; [intros []|constructor]. Qed.
+Lemma iface_c1 : iface_ok atom_pv c1.  Proof. apply atom_iface; apply NoDup1. Qed.
+Lemma iface_c2 : iface_ok atom_pv c2.  Proof. apply atom_iface; apply NoDup1. Qed.
+Lemma iface_c12 : iface_ok atom_pv c12. Proof. apply atom_iface; apply NoDup1. Qed.
 
 Example compose_cascade_runs :
   exists st, IoContract_compose_tactics c1 c2 None true None = inl (c12, st).
@@ -651,7 +769,8 @@ Proof. vm_compute. reflexivity. Qed.
 Example compose_cascade_obligation : compose_obligation beh atom_dt c1 c2 c12.
 Proof.
   destruct compose_cascade_runs as (st & Hst).
-  exact (proj2 (compose_sound beh atom_dt atom_wf ToySpec _ _ _ _ _ _ _ (atom_wfc c1) (atom_wfc c2) Hst)).
+  exact (proj2 (compose_sound beh atom_dt atom_wf atom_pv ToySpec c1 c2 None true None c12 st
+                  (atom_wfc c1) (atom_wfc c2) iface_c1 iface_c2 (NoDup_nil _) Hst)).
 Qed.
 
 (* the hypotheses of quotient_sound are satisfiable too, through both outcomes
@@ -673,7 +792,16 @@ Proof. eexists. vm_compute. reflexivity. Qed.
 Example quotient_obligation_true : quotient_obligation beh atom_dt c12 c1 c2.
 Proof.
   destruct quotient_runs_true as (st & Hst).
-  exact (proj2 (quotient_sound beh atom_dt atom_wf ToySpec _ _ _ _ _ _ _ (atom_wfc c12) (atom_wfc c1) Hst)).
+  exact (proj2 (quotient_sound beh atom_dt atom_wf atom_pv ToySpec ToyRefines _ _ _ _ _ _ _
+                  (atom_wfc c12) (atom_wfc c1) iface_c12 iface_c1 Hst)).
+Qed.
+
+Example quotient_obligation_false : quotient_obligation beh atom_dt c12 c2 c1.
+Proof.
+  destruct quotient_runs_false as (st & Hst).
+  refine (proj2 (quotient_sound_refines_false beh atom_dt atom_wf atom_pv ToySpec _ _ _ _ _ _ _
+                  (atom_wfc c12) (atom_wfc c2) iface_c12 iface_c2 _ Hst)).
+  rewrite quotient_refines_false. discriminate.
 Qed.
 
 Example merge_runs : IoContract_merge c1 c1 = inl c1.
@@ -686,6 +814,8 @@ End Toy.
 
 Print Assumptions compose_sound.
 Print Assumptions quotient_sound.
+Print Assumptions quotient_sound_pointwise.
+Print Assumptions quotient_sound_refines_false.
 Print Assumptions merge_exact.
 Print Assumptions init_sound.
 Print Assumptions refines_sound.
